@@ -8,7 +8,7 @@ cd /verif
 export ANEMO_REPO=$wt VERIF_DEV_NO_KANI=1 VERIF_EVIDENCE_DIR=/var/tmp/anemo-verif-matrix/dev-ev VERIF_REPLAY_DIR=/var/tmp/anemo-verif-matrix/dev-rp
 mkdir -p $VERIF_EVIDENCE_DIR $VERIF_REPLAY_DIR
 git -C $wt checkout -q -- . ; git -C $wt clean -qfd crates
-[ "$pd" = none ] || git -C $wt apply /verif/$pd/patch.diff || { echo "$pd: patch does not apply"; exit 2; }
+pf=/verif/$pd/patch.diff; case "$pd" in /*) pf=$pd/patch.diff;; esac; [ "$pd" = none ] || git -C $wt apply $pf || { echo "$pd: patch does not apply"; exit 2; }
 for p in "$@"; do
   if [ -n "$VERBOSE" ]; then ./check $p ${ONLY:+--only $ONLY} 2>&1 | cut -c1-${WIDTH:-600}
   else ./check $p ${ONLY:+--only $ONLY} 2>&1 | grep -E "VIOLATED|INCONCLUSIVE |HELD on|internal error" | cut -c1-${WIDTH:-420} | sed "s#^#$pd [$p]: #"; fi
